@@ -353,7 +353,7 @@ func c08(r *Run) {
 			}
 			continue
 		}
-		must := false  // exactly one datagram required
+		must := false // exactly one datagram required
 		wantErr := int64(0)
 		switch {
 		case inj.trailing || inj.tAbsent:
